@@ -162,7 +162,7 @@ func c04Predicate(c *Ctx, ge *GuardEngine, ctors map[string]string) {
 	ok := len(atoms) == 1 && want.MatchString(atoms[0])
 	c.Check(ok, "membership-predicate", "root-equality", c.P.Pos(fn.Pos()), ifElse(ok, "true only if Trees[len(proof)] == proofRoot(leaf)", "containsLeaf returns "+joinShort(atoms)+" — not 'stored root at height len(proof) equals the proof root, else false'"))
 	gs := ge.Guards(fn, nil, nil, nil, 0, map[*ssa.Function]int{})
-	r := req("tree-exists", "", "call (*consensus.ElementAccumulator).%ID%({consensus.ElementAccumulator}, len({consensus.elementLeaf}.StateElement.MerkleProof))", opF, "", "a tree must exist at the proof's height (otherwise a stale root slot could match)")
+	r := req("tree-exists", "", "call (consensus.ElementAccumulator).%ID%({consensus.ElementAccumulator}, len({consensus.elementLeaf}.StateElement.MerkleProof))", opF, "", "a tree must exist at the proof's height (otherwise a stale root slot could match)")
 	r.Weak = true
 	r.Entry = "consensus.(*ElementAccumulator).containsLeaf"
 	ge.CheckReq(c, "membership-predicate", r, gs)
@@ -197,7 +197,7 @@ func c04Predicate(c *Ctx, ge *GuardEngine, ctors map[string]string) {
 		if wantSpent {
 			flag = "const:true"
 		}
-		wre := regexp.MustCompile(`^call \(\*consensus\.ElementAccumulator\)\.containsLeaf\(\{consensus\.ElementAccumulator\}, call (consensus\.\w+)\((\{types\.\w+\})(, nil)?(, (const:(?:true|false)))?\)\)$`)
+		wre := regexp.MustCompile(`^call \(consensus\.ElementAccumulator\)\.containsLeaf\(\{consensus\.ElementAccumulator\}, call (consensus\.\w+)\((\{types\.\w+\})(, nil)?(, (const:(?:true|false)))?\)\)$`)
 		mm := wre.FindStringSubmatch(a)
 		okc := mm != nil
 		inner := a
@@ -242,7 +242,7 @@ func c04Parents(c *Ctx, ge *GuardEngine, ctors map[string]string) {
 		found := false
 		where := ""
 		for _, cf := range cs {
-			if cf.Callee == nil || FuncName(cf.Callee) != "(*consensus.ElementAccumulator).containsLeaf" || len(cf.Args) < 2 {
+			if cf.Callee == nil || FuncName(cf.Callee) != "(consensus.ElementAccumulator).containsLeaf" || len(cf.Args) < 2 {
 				continue
 			}
 			if strings.Contains(cf.Args[1], "("+want+")") || strings.Contains(cf.Args[1], "("+want+",") {
